@@ -160,9 +160,16 @@ def execute_tables(mod):
     return bare, special
 
 
-def load():
+def load(strict=True):
+    """`strict=False` (used by the correspondence harness, which only needs the class tables): constants of as_dict
+    that cannot be extracted are replaced by empty lists instead of raising."""
     mod = importlib.import_module("dissect.cobaltstrike.c2profile")
-    props, consts = list_props(mod)
+    try:
+        props, consts = list_props(mod)
+    except Exception:  # noqa: BLE001
+        if strict:
+            raise
+        props, consts = [], []
     return {
         "listProps": props,
         "asDictStrings": consts,
